@@ -37,6 +37,7 @@ type UnitCfg struct {
 	What       string              `json:"what,omitempty"`
 	NoNative   bool                `json:"no_native,omitempty"` // native replay impossible (stubs replace real code)
 	MaxAlloc   int                 `json:"max_alloc,omitempty"`
+	ClockStepNs int64              `json:"clock_step_ns,omitempty"` // >0: consecutive time.Now readings differ by at most this much, except across time.Sleep(d), which adds d
 	LoopFeas   bool                `json:"loop_feasibility,omitempty"` // ask the solver once per loop wave whether the wave is feasible
 }
 
@@ -517,6 +518,11 @@ func cmdCheck(args []string) int {
 		for _, r := range results {
 			if r != nil && r.Witness != nil && r.Witness.Expect != nil {
 				fmt.Fprintf(os.Stderr, "WITNESS %s %s expect observes=%v failed=%v\n", r.Unit, caseStr(r.Cases), r.Witness.Expect.Observes, r.Witness.Expect.Failed)
+				if data, err := json.MarshalIndent(r.Witness, "", " "); err == nil {
+					ud := filepath.Join(verifDir, "build", "witness")
+					os.MkdirAll(ud, 0o755)
+					os.WriteFile(filepath.Join(ud, fmt.Sprintf("%s-%s.json", id, r.Unit)), data, 0o644)
+				}
 			}
 		}
 	}
